@@ -96,6 +96,42 @@ def run(ctx):
             rev = impl.ops_of(impl.cmap(BI).compose(impl.cmap(AI)))
             if rev != ABI:
                 ctx.fail('CliffordMap.inverse', 'inverse of a composition is not the reversed composition of inverses', dict(A=A, B=B))
+    # histories on one map object: inverse, change the map in place (rotation / transformation / embed), inverse again
+    for _ in range(ctx.budget(100, 1000)):
+        n = rng.choice([1, 2, 3, 4])
+        A = G.rand_map_ops(rng, n)
+        m = impl.cmap(A)
+        cur = [(x[0], x[1] % 4) for x in A]
+        hist = []
+        for step in range(rng.randrange(2, 6)):
+            c = rng.random()
+            try:
+                if c < 0.45:
+                    hist.append('inverse')
+                    inv_ = impl.ops_of(m.inverse())
+                    l = impl.ops_of(impl.cmap(cur).compose(impl.cmap(inv_)))
+                    if l != G.id_map_ops(n):
+                        ctx.fail('CliffordMap.inverse', 'after the history %s the inverse no longer composes with the (current) map to the identity' % hist,
+                                 dict(start=A, history=hist, current=cur, inverse=inv_)); break
+                elif c < 0.7:
+                    Gop = G.rand_herm(rng, n, nonid=True)
+                    hist.append(('rotate_by', Gop))
+                    m.rotate_by(impl.pauli(Gop)); cur = [G.rotate_op(Gop, x) for x in cur]
+                elif c < 0.9:
+                    M2 = G.rand_map_ops(rng, n)
+                    hist.append(('transform_by', M2))
+                    m.transform_by(impl.cmap(M2)); cur = [H.map_apply(M2, x) for x in cur]
+                else:
+                    hist.append('compose')
+                    B = G.rand_map_ops(rng, n)
+                    got = impl.ops_of(m.compose(impl.cmap(B)))
+                    if got != [H.map_apply(B, x) for x in cur]:
+                        ctx.fail('CliffordMap.compose', 'after the history %s compose does not act as first map then second' % hist, dict(start=A, history=hist)); break
+                if impl.ops_of(m) != cur:
+                    ctx.fail('CliffordMap', 'map object differs from its tracked value after %s' % hist, dict(start=A, history=hist)); break
+            except Exception as e:
+                ctx.fail('CliffordMap', 'implementation raised %r in the history %s' % (e, hist), dict(start=A)); break
+        ctx.case(('history', tuple(A), str(hist)), True, sample=dict(op='history', N=n, steps=[h if isinstance(h, str) else h[0] for h in hist]))
     # z2inv kernel
     for _ in range(ctx.budget(200, 3000)):
         n = rng.choice([1, 2, 3, 4, 6, 8, 12])
